@@ -3,9 +3,11 @@
 use serde_json::Value;
 
 pub mod index;
+pub mod stack;
 
-pub fn replay(_property: &str, engine: &str, case: &Value) -> Result<(), String> {
+pub fn replay(property: &str, engine: &str, case: &Value) -> Result<(), String> {
     match engine {
+        "stack" => stack::replay(property, case),
         "index" => index::replay(case),
         _ => Err(format!("unknown engine {engine:?} in replay file")),
     }
